@@ -300,4 +300,85 @@ Definition ns_init_from_dict (d : alist) : res alist :=
   fold_left (fun acc kv => match acc with Fail => Fail | Ok r => ns_setitem (fst kv) (snd kv) r end)
             d (Ok []).
 
+(* step-by-step reading: functools.reduce(lambda o, seg: o[seg], key.split("."), ns). A Namespace is read with
+   its __getitem__ (one segment, so the key checks and the clash mark apply), a dict with dict.__getitem__
+   (plain user key); anything else cannot be subscripted with a string. *)
+Fixpoint get_steps (segs : list str) (cur : val) : res val :=
+  match segs with
+  | [] => Ok cur
+  | sg :: segs' =>
+      match cur with
+      | VNs d => match ns_getitem sg d with Ok v => get_steps segs' v | Fail => Fail end
+      | VDict dd => match aget sg dd with Some v => get_steps segs' v | None => Fail end
+      | _ => Fail
+      end
+  end.
+
+Definition ns_get_steps (key : str) (root : alist) : res val := get_steps (split_key key) (VNs root).
+
+(* dict_to_namespace(d) = expand_dict(recreate_branches(d)): every dict (all our keys are str) becomes
+   Namespace-from-kwargs, dicts that are ELEMENTS of a list value too (one list level, as the code does);
+   Namespace-from-kwargs is argparse's loop of setattr, i.e. Namespace.__setattr__ for every entry in order.
+   setattr raises only for a dotted name with a space or an empty segment: then the whole call raises. *)
+Definition kwarg_ok (k : str) : bool :=
+  negb (mem_N DOT k) || match parse_key k with Some _ => true | None => false end.
+
+Fixpoint dict_keys_ok (v : val) : bool :=
+  match v with
+  | VDict dd =>
+      forallb (fun kv => kwarg_ok (fst kv) &&
+                 match snd kv with
+                 | VDict _ => dict_keys_ok (snd kv)
+                 | VList l => forallb (fun e => match e with VDict _ => dict_keys_ok e | _ => true end) l
+                 | _ => true
+                 end) dd
+  | _ => true
+  end.
+
+Fixpoint expand_dict (v : val) : val :=
+  match v with
+  | VDict dd =>
+      let kw := map (fun kv => (fst kv,
+                       match snd kv with
+                       | VDict _ => expand_dict (snd kv)
+                       | VList l => VList (map (fun e => match e with VDict _ => expand_dict e | _ => e end) l)
+                       | x => x
+                       end)) dd in
+      VNs (fold_left (fun acc kv => match ns_setattr (fst kv) (snd kv) acc with Ok r => r | Fail => acc end) kw [])
+  | x => x
+  end.
+
+Definition ns_from_dict (d : val) : res alist :=
+  match d with
+  | VDict _ => if dict_keys_ok d then match expand_dict d with VNs r => Ok r | _ => Fail end else Fail
+  | _ => Fail
+  end.
+
 End WithClash.
+
+(* Python's == on the modelled values. Namespace.__eq__ (argparse) is vars(self) == vars(other) for two
+   Namespaces and False otherwise; dict equality does not depend on insertion order (keys are unique in a
+   __dict__ / dict: same size + every entry of the left found equal in the right); list and tuple equality is
+   element-wise in order; a list never equals a tuple. *)
+Fixpoint py_eq (a b : val) {struct a} : bool :=
+  let fix seq (x y : list val) {struct x} : bool :=
+    match x, y with
+    | [], [] => true
+    | u :: x', w :: y' => py_eq u w && seq x' y'
+    | _, _ => false
+    end in
+  let fix sub (x : list (str * val)) (y : list (str * val)) {struct x} : bool :=
+    match x with
+    | [] => true
+    | (k, u) :: x' => match aget k y with Some w => py_eq u w | None => false end && sub x' y
+    end in
+  match a, b with
+  | VInt x, VInt y => Z.eqb x y
+  | VStr x, VStr y => str_eqb x y
+  | VNone, VNone => true
+  | VList x, VList y => seq x y
+  | VTup x, VTup y => seq x y
+  | VDict x, VDict y => Nat.eqb (length x) (length y) && sub x y
+  | VNs x, VNs y => Nat.eqb (length x) (length y) && sub x y
+  | _, _ => false
+  end.
